@@ -29,6 +29,7 @@ package gossip
 //@    && (forall id string :: id in s.nodes ==> s.nodes[id] != nil && allocated(s.nodes[id]) && s.nodes[id].ID == id && nsInv(s.nodes[id]))
 //@    && (forall a string, b string :: a in s.nodes && b in s.nodes && a != b ==> s.nodes[a] != s.nodes[b] && s.nodes[a].Entries != s.nodes[b].Entries)
 //@    && !s.nodes[s.localID].Unreachable && s.nodes[s.localID].Expiry.IsZero()
+//@    && (forall id string :: id in s.nodes && id != s.localID ==> ((s.nodes[id].Left || s.nodes[id].Unreachable) == !s.nodes[id].Expiry.IsZero()))
 
 // The live (visible) part of a node's key-value state.
 //@ pure liveHas(n *nodeState, k string) bool = k in n.Entries && !n.Entries[k].Deleted
@@ -134,5 +135,6 @@ package gossip
 //@ pure wInv(s *clusterState) bool = (gNode() != s.localID ==>
 //@        (wNode == (gNode() in s.nodes))
 //@     && (gNode() in s.nodes ==> (wHas == visible(s.nodes[gNode()], gKey())) && (wHas ==> wVal == s.nodes[gNode()].Entries[gKey()].Value)
-//@                               && wLeft == s.nodes[gNode()].Left && wUnreach == s.nodes[gNode()].Unreachable)
+//@                               && wLeft == s.nodes[gNode()].Left && wUnreach == s.nodes[gNode()].Unreachable
+//@                               && (gKey() in s.nodes[gNode()].Entries ==> s.nodes[gNode()].Entries[gKey()].Internal == isInternalKey(gKey())))
 //@     && (!(gNode() in s.nodes) ==> !wHas && !wLeft && !wUnreach))
